@@ -131,9 +131,17 @@ type interp struct {
 }
 
 func newInterp(stdin string) *interp {
+	return newInterpIO(stdin, true)
+}
+
+// newInterpIO with inject == false prepares the constants WITHOUT an IO object, as web/wasm/executor.go does (IO is injected when a
+// source is evaluated): the first program of a session then sees the first injection, like the first execution in the playground
+func newInterpIO(stdin string, inject bool) *interp {
 	it := &interp{rec: &recorder{}}
 	env := object.NewEnvWithConsts()
-	env.InjectIO(strings.NewReader(stdin), it.rec)
+	if inject {
+		env.InjectIO(strings.NewReader(stdin), it.rec)
+	}
 	di.InjectBuiltInProps(env)
 	env.InjectFrom(object.BuiltInKernelObj)
 	it.constEnv = env
